@@ -148,7 +148,21 @@ class Runner:
                 runs.append(res[0])
             a, b = ({x: r[x] for x in ("history", "positions", "wallet", "actions")} for r in runs)
             if a != b:
-                raise RuntimeError(f"solo run of {kind} in mix {mix} is not reproducible: the comparison would be meaningless")
+                # two solo runs in THIS (already used) process differ.  Either the harness is not deterministic (then no comparison means
+                # anything), or something an earlier run left behind in the process reaches a later run.  Decide in fresh interpreters:
+                fresh = []
+                for _ in range(2):
+                    err, _, res = self.run_forked(c)
+                    if err or 0 not in res:
+                        raise RuntimeError(f"solo run of {kind} in mix {mix} failed in a fresh interpreter: {err}")
+                    fresh.append(res[0])
+                fa, fb = ({x: r[x] for x in ("history", "positions", "wallet", "actions")} for r in fresh)
+                if fa != fb:
+                    raise RuntimeError(f"solo run of {kind} in mix {mix} is not reproducible: the comparison would be meaningless")
+                # deterministic when run alone in a clean process: that run is the reference ("running it alone"); the runs in company are
+                # compared with it below like any other
+                self.info["solo_runs_differ_inside_a_used_process"] = self.info.get("solo_runs_differ_inside_a_used_process", 0) + 1
+                runs = fresh
             self.solo[k] = runs[0]
         return self.solo[k]
 
